@@ -463,8 +463,9 @@ impl BlockHeaderData {
 }
 // any block source
 pub struct BlockSourceStub {}
+pub uninterp spec fn reported_best(s: BlockSourceStub) -> BlockHash;   // the best block hash the source names (when it answers)
 impl BlockSourceStub {
-    #[verifier::external_body] pub async fn get_best_block(&self) -> (r: BlockSourceResult<(BlockHash, Option<u32>)>) { unimplemented!() }
+    #[verifier::external_body] pub async fn get_best_block(&self) -> (r: BlockSourceResult<(BlockHash, Option<u32>)>) ensures r is Ok ==> r->Ok_0.0 == reported_best(*self) { unimplemented!() }
     #[verifier::external_body] pub async fn get_header(&self, header_hash: &BlockHash, height_hint: Option<u32>) -> (r: BlockSourceResult<BlockHeaderData>)
         ensures r is Ok ==> r->Ok_0.height < u32::MAX   // assumption on block sources (see header)
     { unimplemented!() }
@@ -502,6 +503,20 @@ impl ChainPoller {
     header.check_builds_on(&previous_header, self.network)?;
 //@with
     
+//@end
+// start-up: the tip the listeners are synchronised to is the source's best block, validated against the hash the source named
+//@extract lightning-block-sync/src/init.rs :: fn validate_best_block_header
+//@rw R5
+    pub async fn validate_best_block_header<B: Deref>( block_source: B, ) -> BlockSourceResult<ValidatedBlockHeader> where B::Target: BlockSource,
+//@with
+    pub async fn validate_best_block_header( block_source: &BlockSourceStub, ) -> BlockSourceResult<ValidatedBlockHeader>
+//@ret r
+//@ensures P C20 the-start-up-tip-is-a-header-whose-proof-of-work-hash-is-the-best-block-hash-the-source-reported
+    r is Ok ==> r->Ok_0.block_hash == hash_of(r->Ok_0.inner.header) && r->Ok_0.block_hash == reported_best(*block_source),
+//@mutant start_up_tip_not_validated_against_the_reported_hash
+    block_source.get_header(&best_block_hash, best_block_height).await?.validate(best_block_hash)
+//@with
+    { let h = block_source.get_header(&best_block_hash, best_block_height).await?; let hh = h.header.block_hash(); h.validate(hh) }
 //@end
 // a header asked for by hash (start-up: a listener's last block) comes back validated against that hash
 //@extract lightning-block-sync/src/poll.rs :: impl Poll for ChainPoller :: fn get_header
